@@ -556,6 +556,10 @@ func init() {
 	reg("time.runtimeNano", func(w *W, fr *frame, a []Value) Value { return mkInt(64, 1) })
 
 	// ---- runtime bits ----
+	reg("runtime.Caller", func(w *W, fr *frame, a []Value) Value {
+		return tuple(mkInt(64, 0), mkStr(""), mkInt(64, 0), mkBool(false))
+	})
+	reg("runtime.Callers", func(w *W, fr *frame, a []Value) Value { return mkInt(64, 0) })
 	reg("runtime.GOMAXPROCS", func(w *W, fr *frame, a []Value) Value { return mkInt(64, 1) })
 	reg("runtime.NumCPU", func(w *W, fr *frame, a []Value) Value { return mkInt(64, 1) })
 	reg("internal/cpu.Initialize", nop)
